@@ -268,10 +268,34 @@ class SymReal(object):
         if bool(self < 0):
             return float('nan')
         c = ctx()
-        s = c.fresh_real('sqrt')
-        if c.options.get('sqrt') == 'abstract':
+        if c.options.get('sqrt') in ('abstract', 'abstract-pos'):
+            # lemma instances of the real sqrt: equal arguments give equal roots; sqrt(k^2 a) = k sqrt(a) (k > 0).
+            # The polynomial identity between the arguments is established by exact normalisation, and the earlier
+            # root is reused as a term so that later identities stay syntactic.
+            k = c.options.get('sqrt_scale')
+            kt = lift(k).rt if k is not None else None
+            for a0, s0 in c.sqrts:
+                if _poly_zero(self.rt - a0):
+                    return SymReal(s0)
+                if kt is not None:
+                    if _poly_zero(self.rt - kt * kt * a0):
+                        return SymReal(kt * s0)
+                    if _poly_zero(a0 - kt * kt * self.rt):
+                        return SymReal(s0 / kt)
+            s = c.fresh_real('sqrt')
             # sound over-approximation: an arbitrary value that is positive exactly when the argument is
-            c.add(z3.And(s >= 0, (s == 0) == (self.rt == 0)))
+            # ('abstract-pos': arbitrary positive value; the harness restricts itself to non-degenerate arguments)
+            if c.options.get('sqrt') == 'abstract-pos':
+                c.add(s > 0)
+            else:
+                c.add(z3.And(s >= 0, (s == 0) == (self.rt == 0)))
+            for a0, s0 in c.sqrts:
+                c.add(z3.Implies(self.rt == a0, s == s0))
+            c.sqrts.append((self.rt, s))
+            return SymReal(s)
+        s = c.fresh_real('sqrt')
+        if False:
+            pass
         else:
             c.add(z3.And(s >= 0, s * s == self.rt))
         return SymReal(s)
@@ -447,6 +471,93 @@ class SymReal(object):
 class SymInt(SymReal):
     __slots__ = ()
     is_int = True
+
+
+def _poly(t, memo, limit=20000):
+    """polynomial normal form {monomial (sorted tuple of atom ids): Fraction}; atoms are non-arithmetic subterms.
+    Returns None when the term is not polynomial (division by a non-constant, ite, ...) or too large."""
+    k = t.get_id()
+    if k in memo:
+        return memo[k]
+    r = None
+    if z3.is_rational_value(t) or z3.is_int_value(t):
+        v = Fraction(t.numerator_as_long(), t.denominator_as_long()) if z3.is_rational_value(t) else Fraction(t.as_long())
+        r = {(): v} if v != 0 else {}
+    elif z3.is_app(t):
+        kind = t.decl().kind()
+        ch = t.children()
+        if kind == z3.Z3_OP_ADD:
+            r = {}
+            for c_ in ch:
+                pc = _poly(c_, memo, limit)
+                if pc is None:
+                    r = None
+                    break
+                for m, v in pc.items():
+                    nv = r.get(m, 0) + v
+                    if nv == 0:
+                        r.pop(m, None)
+                    else:
+                        r[m] = nv
+        elif kind == z3.Z3_OP_SUB:
+            r = dict(_poly(ch[0], memo, limit) or {}) if _poly(ch[0], memo, limit) is not None else None
+            if r is not None:
+                for c_ in ch[1:]:
+                    pc = _poly(c_, memo, limit)
+                    if pc is None:
+                        r = None
+                        break
+                    for m, v in pc.items():
+                        nv = r.get(m, 0) - v
+                        if nv == 0:
+                            r.pop(m, None)
+                        else:
+                            r[m] = nv
+        elif kind == z3.Z3_OP_UMINUS:
+            pc = _poly(ch[0], memo, limit)
+            r = None if pc is None else {m: -v for m, v in pc.items()}
+        elif kind == z3.Z3_OP_MUL:
+            r = {(): Fraction(1)}
+            for c_ in ch:
+                pc = _poly(c_, memo, limit)
+                if pc is None:
+                    r = None
+                    break
+                nr = {}
+                for m1, v1 in r.items():
+                    for m2, v2 in pc.items():
+                        m = tuple(sorted(m1 + m2))
+                        nv = nr.get(m, 0) + v1 * v2
+                        if nv == 0:
+                            nr.pop(m, None)
+                        else:
+                            nr[m] = nv
+                if len(nr) > limit:
+                    r = None
+                    break
+                r = nr
+        elif kind == z3.Z3_OP_DIV:
+            pd = _poly(ch[1], memo, limit)
+            pn = _poly(ch[0], memo, limit)
+            if pd is not None and pn is not None and list(pd.keys()) == [()] and pd[()] != 0:
+                r = {m: v / pd[()] for m, v in pn.items()}
+        elif kind == z3.Z3_OP_TO_REAL:
+            r = _poly(ch[0], memo, limit)
+        elif kind in (z3.Z3_OP_UNINTERPRETED,) or not ch:
+            r = {(k,): Fraction(1)}
+        else:
+            r = {(k,): Fraction(1)}     # opaque atom (ite, to_int, ...): identical subterms share the id
+    memo[k] = r
+    return r
+
+
+def _poly_zero(t):
+    """is the term identically zero as a polynomial over its atoms?  (exact expansion, no solver)"""
+    try:
+        p = _poly(t, {})
+    except (z3.Z3Exception, RecursionError):
+        return False
+    return p is not None and len(p) == 0
 
 
 def _promote(x, other):
@@ -684,6 +795,7 @@ class Ctx(object):
         self.deadline = None
         self.decided = {}
         self.options = {}
+        self.sqrts = []
         self._keep = []           # keeps decided terms alive so that AST ids are not reused
 
     # ---------------------------------------------------------------- solver plumbing
